@@ -69,7 +69,7 @@ Atoms ==
 (* features outside the reference evaluator: only relational judgements (C12, C19) *)
 ExtAtoms ==
    {Atom("format", f) : f \in {"date", "date-time", "byte", "int32", "int64", "no-such-format"}}
-   \cup {Atom("pattern", "^[a-z]+$"), Atom("pattern", "("), Atom("disc", "x")}
+   \cup {Atom("pattern", "^[a-z]+$"), Atom("pattern", "("), Atom("disc", "x"), Atom("discmap", "x")}
 
 (* keywords an outer (wrapping) level may add next to the wrapped schema *)
 OuterAtoms ==
@@ -87,7 +87,8 @@ CanAdd(s, a) ==
    /\ ~Has(s, a.f)
    /\ a.f = "exclusiveMinimum" => Has(s, "minimum")
    /\ a.f = "exclusiveMaximum" => Has(s, "maximum")
-   /\ a.f = "disc" => Has(s, "oneOf")            \* discriminator only next to oneOf
+   /\ a.f = "disc" => Has(s, "oneOf") /\ ~Has(s, "discmap")   \* discriminator only next to oneOf
+   /\ a.f = "discmap" => Has(s, "oneOf") /\ ~Has(s, "disc")   \* ... with a one-entry mapping {k: <ref>}
    /\ a.f = "apFalse" => ~Has(s, "apSchema")      \* additionalProperties is one or the other
    /\ a.f = "apSchema" => ~Has(s, "apFalse")
 
